@@ -23,21 +23,6 @@ theorem all_takeWhile {α : Type} (p : α → Bool) (l : List α) : (l.takeWhile
   rw [List.all_eq_true]
   exact fun x hx => mem_takeWhile_true p l x hx
 
-/-- the value that follows a key -/
-def parseVal (r : Bytes) : Option (SVal × Bytes) :=
-  match r with
-  | 61 :: 34 :: r' =>
-    match r'.dropWhile (· != 34) with
-    | 34 :: rest => some (.dq (r'.takeWhile (· != 34)), rest)
-    | _ => none
-  | 61 :: 39 :: r' =>
-    match r'.dropWhile (· != 39) with
-    | 39 :: rest => some (.sq (r'.takeWhile (· != 39)), rest)
-    | _ => none
-  | 61 :: r' =>
-    if (SVal.unq (r'.takeWhile unqByte)).ok then some (.unq (r'.takeWhile unqByte), r'.dropWhile unqByte) else none
-  | _ => some (.none, r)
-
 theorem not_contains_takeWhile_ne (c : Nat) (l : Bytes) : (l.takeWhile (· != c)).contains c = false := by
   cases h : (l.takeWhile (· != c)).contains c with
   | false => rfl
@@ -46,9 +31,23 @@ theorem not_contains_takeWhile_ne (c : Nat) (l : Bytes) : (l.takeWhile (· != c)
     have := mem_takeWhile_true (· != c) l c hm
     simp at this
 
-theorem parseVal_sound {r : Bytes} {v : SVal} {rest : Bytes} (h : parseVal r = some (v, rest)) :
-    r = v.text ++ rest ∧ v.ok = true := by
-  unfold parseVal at h
+/-- the value that stands after the `=` (and the white space following the `=`) -/
+def parseBody (r : Bytes) : Option (SVal × Bytes) :=
+  match r with
+  | 34 :: r' =>
+    match r'.dropWhile (· != 34) with
+    | 34 :: rest => some (.dq (r'.takeWhile (· != 34)), rest)
+    | _ => none
+  | 39 :: r' =>
+    match r'.dropWhile (· != 39) with
+    | 39 :: rest => some (.sq (r'.takeWhile (· != 39)), rest)
+    | _ => none
+  | _ =>
+    if (SVal.unq (r.takeWhile unqByte)).ok then some (.unq (r.takeWhile unqByte), r.dropWhile unqByte) else none
+
+theorem parseBody_sound {r : Bytes} {v : SVal} {rest : Bytes} (h : parseBody r = some (v, rest)) :
+    r = v.body ++ rest ∧ v.ok = true ∧ v ≠ .none := by
+  unfold parseBody at h
   split at h
   · rename_i r'
     split at h
@@ -57,8 +56,8 @@ theorem parseVal_sound {r : Bytes} {v : SVal} {rest : Bytes} (h : parseVal r = s
       obtain ⟨rfl, rfl⟩ := h
       have := List.takeWhile_append_dropWhile (p := (· != 34)) (l := r')
       rw [hd] at this
-      refine ⟨?_, by simp only [SVal.ok, not_contains_takeWhile_ne]; rfl⟩
-      simp only [SVal.text, List.cons_append, List.nil_append, List.append_assoc, List.cons.injEq, true_and]
+      refine ⟨?_, by simp only [SVal.ok, not_contains_takeWhile_ne]; rfl, by simp⟩
+      simp only [SVal.body, List.cons_append, List.nil_append, List.append_assoc, List.cons.injEq, true_and]
       exact this.symm
     · cases h
   · rename_i r'
@@ -68,22 +67,54 @@ theorem parseVal_sound {r : Bytes} {v : SVal} {rest : Bytes} (h : parseVal r = s
       obtain ⟨rfl, rfl⟩ := h
       have := List.takeWhile_append_dropWhile (p := (· != 39)) (l := r')
       rw [hd] at this
-      refine ⟨?_, by simp only [SVal.ok, not_contains_takeWhile_ne]; rfl⟩
-      simp only [SVal.text, List.cons_append, List.nil_append, List.append_assoc, List.cons.injEq, true_and]
+      refine ⟨?_, by simp only [SVal.ok, not_contains_takeWhile_ne]; rfl, by simp⟩
+      simp only [SVal.body, List.cons_append, List.nil_append, List.append_assoc, List.cons.injEq, true_and]
       exact this.symm
     · cases h
-  · rename_i r' _ _
-    split at h
+  · split at h
     · rename_i hok
       simp only [Option.some.injEq, Prod.mk.injEq] at h
       obtain ⟨rfl, rfl⟩ := h
-      refine ⟨?_, hok⟩
-      simp only [SVal.text, List.cons_append, List.cons.injEq, true_and]
-      exact (List.takeWhile_append_dropWhile (p := unqByte) (l := r')).symm
+      exact ⟨(List.takeWhile_append_dropWhile (p := unqByte) (l := r)).symm, hok, by simp⟩
     · cases h
+
+/-- what follows a key: nothing (bare key; the white space stays for the next attribute), or white space, `=`, white
+space, value: (value, ws1, ws2, rest) -/
+def parseVal (r : Bytes) : Option (SVal × Bytes × Bytes × Bytes) :=
+  match r.dropWhile isWs with
+  | 61 :: r2 =>
+    match parseBody (r2.dropWhile isWs) with
+    | some (v, rest) => some (v, r.takeWhile isWs, r2.takeWhile isWs, rest)
+    | none => none
+  | _ => some (.none, [], [], r)
+
+theorem parseVal_sound {r : Bytes} {v : SVal} {w1 w2 rest : Bytes} (ws key : Bytes)
+    (h : parseVal r = some (v, w1, w2, rest)) :
+    r = (SAttr.mk ws key v w1 w2).vtext ++ rest ∧ v.ok = true ∧ (SAttr.mk ws key v w1 w2).wsOK = true := by
+  unfold parseVal at h
+  split at h
+  · rename_i r2 hd
+    cases hb : parseBody (r2.dropWhile isWs) with
+    | none => rw [hb] at h; cases h
+    | some vr =>
+      obtain ⟨v', rest'⟩ := vr
+      rw [hb] at h
+      simp only [Option.some.injEq, Prod.mk.injEq] at h
+      obtain ⟨rfl, rfl, rfl, rfl⟩ := h
+      obtain ⟨e, ok, hne⟩ := parseBody_sound hb
+      have s1 := List.takeWhile_append_dropWhile (p := isWs) (l := r)
+      have s2 := List.takeWhile_append_dropWhile (p := isWs) (l := r2)
+      refine ⟨?_, ok, ?_⟩
+      · rw [SAttr.vtext_some (a := SAttr.mk ws key v' _ _) hne]
+        simp only [List.append_assoc]
+        rw [← e, s2]
+        simp only [List.cons_append, List.nil_append]
+        rw [← hd, s1]
+      · simp only [SAttr.wsOK, all_takeWhile, Bool.true_and, Bool.or_eq_true, bne_iff_ne, ne_eq]
+        exact Or.inl hne
   · simp only [Option.some.injEq, Prod.mk.injEq] at h
-    obtain ⟨rfl, rfl⟩ := h
-    exact ⟨by simp [SVal.text], rfl⟩
+    obtain ⟨rfl, rfl, rfl, rfl⟩ := h
+    exact ⟨by simp [SAttr.vtext], rfl, by simp [SAttr.wsOK]⟩
 
 /-- (white space, key, value)* + trailing white space; the fuel is the length of the text + 1 -/
 def parseAttrsGo : Nat → Bytes → Option (List SAttr × Bytes)
@@ -95,10 +126,11 @@ def parseAttrsGo : Nat → Bytes → Option (List SAttr × Bytes)
     else
       match parseVal ((a.dropWhile isWs).dropWhile keyByte) with
       | none => none
-      | some (v, rest) =>
+      | some (v, w1, w2, rest) =>
         match parseAttrsGo n rest with
         | none => none
-        | some (as, trail) => some (⟨a.takeWhile isWs, (a.dropWhile isWs).takeWhile keyByte, v⟩ :: as, trail)
+        | some (as, trail) =>
+          some (⟨a.takeWhile isWs, (a.dropWhile isWs).takeWhile keyByte, v, w1, w2⟩ :: as, trail)
 
 def parseAttrs (a : Bytes) : Option (List SAttr × Bytes) := parseAttrsGo (a.length + 1) a
 
@@ -126,7 +158,7 @@ theorem parseAttrsGo_sound : ∀ (n : Nat) (a : Bytes) (as : List SAttr) (trail 
           cases hv : parseVal ((a.dropWhile isWs).dropWhile keyByte) with
           | none => rw [hv] at h; cases h
           | some vr =>
-            obtain ⟨v, rest⟩ := vr
+            obtain ⟨v, w1, w2, rest⟩ := vr
             rw [hv] at h
             simp only at h
             cases hr : parseAttrsGo n rest with
@@ -137,7 +169,7 @@ theorem parseAttrsGo_sound : ∀ (n : Nat) (a : Bytes) (as : List SAttr) (trail 
               simp only [Option.some.injEq, Prod.mk.injEq] at h
               obtain ⟨rfl, rfl⟩ := h
               obtain ⟨ih1, ih2, ih3⟩ := parseAttrsGo_sound n rest as' trail' hr
-              obtain ⟨hv1, hv2⟩ := parseVal_sound hv
+              obtain ⟨hv1, hv2, hv3⟩ := parseVal_sound (a.takeWhile isWs) ((a.dropWhile isWs).takeWhile keyByte) hv
               refine ⟨?_, ?_, ih3⟩
               · simp only [attrsOf, SAttr.text, List.append_assoc]
                 rw [← ih1, ← hv1, hsplit2, hsplit]
@@ -145,7 +177,7 @@ theorem parseAttrsGo_sound : ∀ (n : Nat) (a : Bytes) (as : List SAttr) (trail 
                 simp only [List.mem_cons] at hx
                 rcases hx with rfl | hx
                 · simp only [SAttr.ok, Bool.and_eq_true, Bool.not_eq_true']
-                  refine ⟨⟨⟨⟨?_, all_takeWhile _ _⟩, ?_⟩, all_takeWhile _ _⟩, hv2⟩
+                  refine ⟨⟨⟨⟨⟨?_, all_takeWhile _ _⟩, ?_⟩, all_takeWhile _ _⟩, hv2⟩, hv3⟩
                   · simpa using hws
                   · simpa using hkey
                 · exact ih2 x hx
@@ -250,7 +282,7 @@ theorem otherOKB_sound {x : Bytes} (h : otherOKB x = true) : OtherOKU x := by
 mutual
   /-- decidable `SimpleN simpleLaws` -/
   def simpleNB : Node → Bool
-    | .verb raw _ => (!raw.isEmpty && !raw.contains 60) || otherOKB raw
+    | .verb raw _ => (!raw.isEmpty && textOKB raw) || otherOKB raw
     | .el nm d a knd cs =>
       (nm == lowerName d) &&
       (match knd with
@@ -315,7 +347,7 @@ end
 def stepsSimpleB (ev : Bytes → Bytes → Bool) : List Node → List BodyFilter → Bool
   | _, [] => true
   | d, f :: fs =>
-    simpleLB d && decide (utf8Split (serializeList d) = some (serializeList d, [])) &&
+    simpleLB d && decide (utf8Split (serializeList d) = some (serializeList d, [])) && decide (NoHeld d) &&
     inDomainB htmlTokenize vtU d f &&
     (fs.isEmpty || !(serializeList (editD (decOf ev) d f)).isEmpty) &&
     stepsSimpleB ev (editD (decOf ev) d f) fs
@@ -327,8 +359,8 @@ theorem stepsSimpleB_sound (ev : Bytes → Bytes → Bool) : ∀ (fs : List Body
     unfold stepsSimpleB at h
     simp only [Bool.and_eq_true, Bool.or_eq_true, Bool.not_eq_true', List.isEmpty_eq_false_iff,
       decide_eq_true_eq] at h
-    obtain ⟨⟨⟨⟨h1, h2⟩, h3⟩, h4⟩, h5⟩ := h
-    refine ⟨simpleLB_sound d h1, h2, inDomainB_sound htmlTokenize vtU h3, ?_, stepsSimpleB_sound ev fs _ h5⟩
+    obtain ⟨⟨⟨⟨⟨h1, h2⟩, hh⟩, h3⟩, h4⟩, h5⟩ := h
+    refine ⟨simpleLB_sound d h1, h2, hh, inDomainB_sound htmlTokenize vtU h3, ?_, stepsSimpleB_sound ev fs _ h5⟩
     intro hne
     rcases h4 with h4 | h4
     · exact absurd (List.isEmpty_iff.mp h4) hne
